@@ -252,6 +252,7 @@ func (o *Out) emit(c *Case) {
 	}
 	o.w.Write(b)
 	o.w.WriteByte('\n')
+	o.w.Flush() // every finished case is on disk: if the process dies inside the library, the driver knows which case was running
 }
 func (o *Out) close() { o.w.Flush(); o.f.Close() }
 
